@@ -136,8 +136,13 @@ impl FeoxStore {
         unimplemented!()
     }
     // unit update_path: removes the key only if the index still holds `expected` and it is strictly expired
+    // C11: expiry is judged against the WALL CLOCK - never against a version number or an explicit timestamp
     #[verifier::external_body]
-    pub fn retire_expired_if_current(&self, key: &[u8], expected: &Arc<Record>, now: u64) -> Result<bool> { unimplemented!() }
+    pub fn retire_expired_if_current(&self, key: &[u8], expected: &Arc<Record>, now: u64) -> Result<bool>
+        requires now == wall_now(),
+    {
+        unimplemented!()
+    }
     // unit update_path: swaps only on the generation `expected`, with a strictly newer timestamp
     #[verifier::external_body]
     pub fn replace_record_if_current(&self, key: &[u8], expected: &Arc<Record>, new_value: &[u8], timestamp: (u64, bool), ttl_seconds: u64, start: InstantH) -> Result<bool> { unimplemented!() }
